@@ -200,7 +200,8 @@ Fixpoint spec_eqb (a b : spec) {struct a} : bool :=
   end.
 
 (* the environment of a case: the spec table and the schema reference of each of the three classes *)
-Record env : Type := mkEnv { e_tab : list spec; e_cls : list N }.
+(* e_tq: the quirk flags of the typing layer (C04's open findings about is_compatible), set per run like the others *)
+Record env : Type := mkEnv { e_tab : list spec; e_cls : list N; e_tq : Typing.quirks }.
 Definition spec_at (ev : env) (r : N) : option spec :=
   match r with 0%N => None | _ => nth_error (e_tab ev) (N.to_nat (r - 1)) end.
 Fixpoint find_spec (s : spec) (tb : list spec) (i : N) : N :=
@@ -568,8 +569,9 @@ Definition tformalize (sc : scope) (st : state) (r : nat) (ck : kind) (cid : N) 
      takes no dict / list at all; a field that routes it to a Dict / List spec binds that spec to the value and completes it in
      place (not modelled);
    - a dict / list that carries a spec: stored as it is when that spec is the one the field binds (or the field routes it to
-     Any) and its allow_partial flag is the effective one; otherwise is_compatible decides and the flag is overridden
-     (not modelled). *)
+     Any) and its allow_partial flag is the effective one; refused (ValueError) when the field's spec is not compatible with
+     it (Typing.compat: is_compatible, with the quirk flags of the typing layer); a compatible value with another spec keeps
+     that spec, and one with another allow_partial flag is re-flagged and completed (not modelled). *)
 Inductive rdec : Type := RDAccept | RDErr (e : err) | RDNA.
 Definition ref_decide (sc : scope) (cfl : flags) (f : spec) (v : node) : rdec :=
   let p := accepts_partial sc cfl in
@@ -593,6 +595,17 @@ Definition ref_decide (sc : scope) (cfl : flags) (f : spec) (v : node) : rdec :=
         match Typing.apply p f (node_pv v) with Typing.Err e => RDErr (t_err e) | Typing.Ok _ => RDNA end
       else RDNA
   end.
+(* ... with the compatibility test in front for a value that carries a spec *)
+Definition ref_decide2 (sc : scope) (cfl : flags) (f : spec) (v : node) : rdec :=
+  match v with
+  | Node _ (KObj _) _ _ _ _ => ref_decide sc cfl f v
+  | Node _ _ _ _ fl _ =>
+      match spec_at ev (f_spec fl) with
+      | Some s => if Typing.compat (e_tq ev) f s then ref_decide sc cfl f v else RDErr EValue
+      | None => ref_decide sc cfl f v
+      end
+  | _ => ref_decide sc cfl f v
+  end.
 Definition tformalize_ref (sc : scope) (st : state) (r : nat) (ck : kind) (cid : N) (cfl : flags) (tpath : list key)
            (ins : bool) (f : spec) (rv : rvalue) : (node * state) + err :=
   match rv with
@@ -601,7 +614,7 @@ Definition tformalize_ref (sc : scope) (st : state) (r : nat) (ck : kind) (cid :
       | Some vpos =>
           match get_at st vpos with
           | Some v =>
-              match ref_decide sc cfl f v with
+              match ref_decide2 sc cfl f v with
               | RDAccept => inl (formalize q sc st r ck cid cfl tpath ins rv)
               | RDErr e => inr e
               | RDNA => inr ENA
@@ -1104,7 +1117,7 @@ Definition ref_ok (sc : scope) (st : state) (c : node) (k : option key) (x : rtv
               negb (unfilled v) &&
               match field_at c k with
               | None => true
-              | Some f => match ref_decide sc (flags_of c) f v with RDNA => false | _ => true end
+              | Some f => match ref_decide2 sc (flags_of c) f v with RDNA => false | _ => true end
               end
           | None => false
           end
@@ -1315,17 +1328,26 @@ Fixpoint run_steps2 (q : quirks) (nf : bool) (ev : env) (st : state) (ops : list
 (* quirk flags of a case: (copy_drops_missing stores_non_fixpoint) *)
 Definition d_nf (t : tr) : option bool :=
   match t with L (_ :: b :: _) => dbool b | L _ => Some false | _ => None end.
+(* entries 3..7 of the quirk list: the flags of Typing.quirks (absent = none) *)
+Definition d_tq (t : tr) : option Typing.quirks :=
+  match t with
+  | L (_ :: _ :: a :: b :: c :: d :: e :: _) =>
+      do a' <- dbool a; do b' <- dbool b; do c' <- dbool c; do d' <- dbool d; do e' <- dbool e;
+      Some (Typing.Quirks a' b' c' d' e')
+  | L _ => Some Typing.noq
+  | _ => None
+  end.
 
 Definition run (c : tr) : tr :=
   match c with
   | L [qs; L specs; cls; L rts; L steps] =>
-      match SymCore.d_quirks qs, d_nf qs, dall (Typing.d_spec 50) specs, dlist dN cls, dall d_root rts, dall d_step2 steps with
-      | Some q, Some nf, Some tb, Some cr, Some rs, Some ops =>
-          let ev := mkEnv tb cr in
+      match SymCore.d_quirks qs, d_nf qs, d_tq qs, dall (Typing.d_spec 50) specs, dlist dN cls, dall d_root rts, dall d_step2 steps with
+      | Some q, Some nf, Some tq, Some tb, Some cr, Some rs, Some ops =>
+          let ev := mkEnv tb cr tq in
           let '(st0, inits) := init_roots nf ev empty_state rs in
           L [L (map (fun e => match e with None => I 0 | Some x => I (SymCore.e_err x) end) inits);
              e_tsnapshot ev st0; L (run_steps2 q nf ev st0 ops)]
-      | _, _, _, _, _, _ => ebad
+      | _, _, _, _, _, _, _ => ebad
       end
   | _ => ebad
   end.
